@@ -973,6 +973,14 @@ func intSize(b *types.Basic) int {
 // closureSync: the closure value is only called or deferred by the function that creates it
 // (never stored, passed on or started as a goroutine).
 func closureSync(mc *ssa.MakeClosure) bool {
+	return closureSyncRec(mc, map[*ssa.MakeClosure]bool{})
+}
+
+func closureSyncRec(mc *ssa.MakeClosure, seen map[*ssa.MakeClosure]bool) bool {
+	if seen[mc] {
+		return true
+	}
+	seen[mc] = true
 	for _, r := range *mc.Referrers() {
 		switch u := r.(type) {
 		case *ssa.DebugRef:
@@ -1011,7 +1019,7 @@ func closureSync(mc *ssa.MakeClosure) bool {
 					}
 				case *ssa.MakeClosure:
 					// captured by another closure (recursive local functions)
-					if !closureSync(x) {
+					if !closureSyncRec(x, seen) {
 						return false
 					}
 				default:
